@@ -202,25 +202,36 @@ def generator_oracle(rng, rounds):
                     bad("uniform_hypergraph_configuration_model", (k, mm, seed), f"degrees {deg} exceed {k} or wrong sizes")
             except Exception as e:  # noqa: BLE001
                 bad("uniform_hypergraph_configuration_model", (k, mm, seed), f"raised {type(e).__name__}: {e}")
-        # HSBM incl. block probability 1 and 0
-        sizes_b = [rng.randint(1, 3), rng.randint(1, 3)]
-        nn = sum(sizes_b)
-        pm = np.array([[rng.choice([0, 1, 0.5]), rng.choice([0, 1, 0.5])], [rng.choice([0, 0.5]), rng.choice([0, 1, 0.5])]])
-        try:
-            with warnings.catch_warnings():
-                warnings.simplefilter("ignore")
-                H = xgi.uniform_HSBM(nn, 2, pm, sizes_b, seed=seed)
-            if sorted(H.nodes) != list(range(nn)) or any(len(x) != 2 or not set(x) <= set(range(nn)) for x in members(H)):
-                bad("uniform_HSBM", (nn, pm.tolist(), sizes_b), "wrong node set or edge sizes")
-            block = lambda v: 0 if v < sizes_b[0] else 1
-            for (a, b), pv in np.ndenumerate(pm):
-                pass
-            for x in members(H):
-                a, b = x
-                if pm[block(a)][block(b)] == 0 and pm[block(b)][block(a)] == 0:
-                    bad("uniform_HSBM", (nn, pm.tolist(), sizes_b), f"edge {x} in a block pair of probability 0")
-        except Exception as e:  # noqa: BLE001
-            bad("uniform_HSBM", (nn, pm.tolist(), sizes_b), f"raised {type(e).__name__}: {e}")
+        # HSBM incl. block probability 1 and 0, for edge sizes 2 and 3: every edge has exactly m distinct nodes, no edge comes from
+        # a block tuple of probability 0 only, and every m-set that some ordering places in a block tuple of probability 1 is there
+        import itertools as _it
+        for m_ in (2, 3):
+            sizes_b = [rng.randint(1, 3), rng.randint(1, 3)]
+            nn = sum(sizes_b)
+            pm = np.array([rng.choice([0, 1, 0.5, 0, 1]) for _ in range(2 ** m_)], dtype=float).reshape((2,) * m_)
+            try:
+                with warnings.catch_warnings():
+                    warnings.simplefilter("ignore")
+                    H = xgi.uniform_HSBM(nn, m_, pm, sizes_b, seed=seed)
+                ms_ = [frozenset(x) for x in members(H)]
+                if sorted(H.nodes) != list(range(nn)) or any(len(x) != m_ or not x <= set(range(nn)) for x in ms_) \
+                        or any(len(list(x)) != m_ for x in members(H)):
+                    bad("uniform_HSBM", (nn, m_, pm.tolist(), sizes_b, seed), "wrong node set, or an edge without exactly m distinct nodes")
+                    continue
+                block = lambda v: 0 if v < sizes_b[0] else 1
+                def probs(x):
+                    return [pm[tuple(block(v) for v in t)] for t in _it.permutations(sorted(x))]
+                for x in ms_:
+                    if max(probs(x)) == 0:
+                        bad("uniform_HSBM", (nn, m_, pm.tolist(), sizes_b, seed), f"edge {set(x)} although every ordering of it lies in a block of probability 0")
+                        break
+                else:
+                    for x in map(frozenset, _it.combinations(range(nn), m_)):
+                        if max(probs(x)) == 1 and x not in ms_:
+                            bad("uniform_HSBM", (nn, m_, pm.tolist(), sizes_b, seed), f"{set(x)} lies in a block of probability 1 and is not an edge")
+                            break
+            except Exception as e:  # noqa: BLE001
+                bad("uniform_HSBM", (nn, m_, pm.tolist(), sizes_b, seed), f"raised {type(e).__name__}: {e}")
         # lattice / simple
         try:
             kk_ = 2 * rng.randint(1, 2)
